@@ -129,6 +129,60 @@ type script struct {
 	apiMisuse bool
 	// archive: the file section of the script (txtar), for the cmp / cp / exists / stdin modes
 	archive string
+	// setupMode: how Params.Setup edits env.Vars besides appending PATH / ARGS / novalue:
+	// 0 nothing more, 1 rewrites the HOME entry in place, 2 removes the devnull entry,
+	// 3 inserts HOME=/early right after WORK (the predefined HOME entry stays later in the list),
+	// 4 appends a duplicate HOME=/dup, 5 rewrites in place and moves the entry to the end
+	setupMode int
+}
+
+// setupEdit applies the script's Setup mode to the variable list.
+func setupEdit(vars []string, mode int) []string {
+	find := func(prefix string) int {
+		for i, kv := range vars {
+			if strings.HasPrefix(kv, prefix) {
+				return i
+			}
+		}
+		return -1
+	}
+	switch mode {
+	case 1:
+		if i := find("HOME="); i >= 0 {
+			vars[i] = "HOME=/real-home"
+		}
+	case 2:
+		if i := find("devnull="); i >= 0 {
+			vars = append(vars[:i:i], vars[i+1:]...)
+		}
+	case 3:
+		vars = append(append(append([]string{}, vars[0]), "HOME=/early"), vars[1:]...)
+	case 4:
+		vars = append(vars, "HOME=/dup")
+	case 5:
+		if i := find("HOME="); i >= 0 {
+			vars = append(append(vars[:i:i], vars[i+1:]...), "HOME=/moved home")
+		}
+	}
+	return vars
+}
+
+// setupKnown: what the variables touched by the Setup mode must be afterwards (the latest
+// binding of the list), known by construction
+func setupKnown(mode int) map[string]string {
+	switch mode {
+	case 1:
+		return map[string]string{"HOME": "/real-home"}
+	case 2:
+		return map[string]string{"devnull": ""}
+	case 3:
+		return map[string]string{"HOME": "/no-home"}
+	case 4:
+		return map[string]string{"HOME": "/dup"}
+	case 5:
+		return map[string]string{"HOME": "/moved home"}
+	}
+	return map[string]string{"HOME": "/no-home"}
 }
 
 type childObs struct {
@@ -193,7 +247,10 @@ var cmds = map[string]func(ts *testscript.TestScript, neg bool, args []string){
 	},
 	"grab": func(ts *testscript.TestScript, neg bool, args []string) {
 		o := curObs[ts.Name()]
-		o.child[idx(ts, args)] = &childObs{entries: parseDump(ts.ReadFile("stdout"))}
+		// an environment block is never empty (PWD is always there): no entries means that the
+		// preceding `exec envdump` did not run the helper
+		es := parseDump(ts.ReadFile("stdout"))
+		o.child[idx(ts, args)] = &childObs{entries: es, failed: len(es) == 0}
 	},
 	"child": func(ts *testscript.TestScript, neg bool, args []string) {
 		o := curObs[ts.Name()]
@@ -264,6 +321,9 @@ func runImpl(work string, scripts []*script, continueOnError bool) []*scriptObs 
 			// the helper directory goes in front of PATH through a second PATH entry (the
 			// list then holds a duplicate key from the start); ARGS names the recording command
 			env.Vars = append(env.Vars, "PATH="+helperDir+string(os.PathListSeparator)+os.Getenv("PATH"), "ARGS=args", "novalue")
+			if sc := curScripts[strings.TrimPrefix(filepath.Base(env.WorkDir), "script-")]; sc != nil {
+				env.Vars = setupEdit(env.Vars, sc.setupMode)
+			}
 			if o := curObs[strings.TrimPrefix(filepath.Base(env.WorkDir), "script-")]; o != nil {
 				o.vars = append([]string{}, env.Vars...)
 				o.cd = env.Cd
@@ -433,7 +493,7 @@ func runModel1(m *common.Model, scripts []*script, obs []*scriptObs) ([]*modelOb
 func sqGo(w string) string { return "'" + strings.ReplaceAll(w, "'", "''") + "'" }
 
 var probeNames = []string{"A", "B", "C", "x", "_y", "Ab_1", "E2", "LONG_name", "PWD", "HOME", "1a", "a-b", "a.b", "é",
-	"", "a@R", "a", "1", "$", "*", "@", "#", "WORK", "ARGS", "novalue", "K", "Q", "a=b", "R", "@R"}
+	"", "a@R", "a", "1", "$", "*", "@", "#", "WORK", "ARGS", "novalue", "K", "Q", "a=b", "R", "@R", "devnull", "GOTRACEBACK", "exe", "/", ":"}
 
 // names usable as $NAME
 var validNames = []string{"A", "B", "C", "x", "_y", "Ab_1", "E2", "LONG_name", "K", "Q", "a", "R"}
@@ -737,6 +797,23 @@ type oracleCase struct {
 	// multi-chunk: the pieces of the word ("q:text" quoted literal, "p:text" unquoted plain text,
 	// "v:NAME" $NAME, "b:NAME" ${NAME}); build takes them as its word list
 	pieces []string
+	// dollar-var: the X item that follows (or -1): the child must see the value $$ expands to
+	childItem int
+}
+
+// scriptLinesOf: the history lines of the script so far that assign key (quoted form), for a
+// self-contained replay of a case whose state comes from earlier in the script
+func scriptLinesOf(sc *script, key string) []string {
+	var out []string
+	for _, it := range sc.items {
+		if it.kind == 'H' && strings.HasPrefix(it.text, "env '"+key+"=") {
+			out = append(out, "H"+it.text)
+		}
+	}
+	if len(out) > 1 {
+		out = out[len(out)-1:]
+	}
+	return out
 }
 
 func perturb(v string) []string {
@@ -1012,7 +1089,7 @@ func (rn *runner) argvOf(lines []string) ([]string, bool) {
 // oracle evaluation on a recorded argv
 func (rn *runner) checkOracle(oc *oracleCase, argv []string, invoked bool) (fails bool, detail string) {
 	switch oc.name {
-	case "quote-roundtrip", "expand-once", "plain-split", "multi-chunk":
+	case "quote-roundtrip", "expand-once", "plain-split", "multi-chunk", "dollar-var", "comment-ends-line":
 		if !invoked {
 			return true, "the args command did not run"
 		}
@@ -1045,6 +1122,16 @@ func (rn *runner) handleOracle(oc *oracleCase, sc *script, o *scriptObs) {
 	}
 	rn.res.Count("oracle:" + oc.name)
 	fails, detail := rn.checkOracle(oc, argv, invoked)
+	if !fails && oc.name == "dollar-var" && oc.childItem >= 0 {
+		// what $$ expands to is what a child finds under the name "$"
+		if c := o.child[oc.childItem]; c != nil && !c.failed && len(argv) > 0 {
+			rn.res.Count("oracle:dollar-var-child")
+			if cv, _ := childValue(c.entries, "$"); cv != argv[0] {
+				rn.oracleFail("dollar-var-child", append([]string{}, oc.lines...), sc.names,
+					fmt.Sprintf("$$ expands to %q, the child sees $=%q", argv[0], cv), cv, argv[0], map[string]string{"key": common.Hex([]byte("$"))})
+			}
+		}
+	}
 	if !fails {
 		return
 	}
@@ -1331,9 +1418,13 @@ func genMultiChunk(r *common.RNG) (hist []string, vals map[string]string, pieces
 // buildScript generates one script of ncases cases; returns oracle cases, trackers (per probe
 // item: the exactly known values), features per T item.
 func buildScript(r *common.RNG, sidx, ncases int, execEvery int) (*script, []*oracleCase, []map[string]string, map[int]feature) {
-	sc := &script{names: probeNames}
+	sc := &script{names: probeNames, setupMode: sidx % 6}
 	allowNul, allowMisuse = sidx%8 == 3, sidx%8 == 6
 	tr := newTracker()
+	for k, v := range setupKnown(sc.setupMode) {
+		tr.set(k, v)
+	}
+	tr.set("$", "$") // predefined: $$ is a literal dollar sign
 	var ocs []*oracleCase
 	trk := []map[string]string{}
 	feats := map[int]feature{}
@@ -1442,6 +1533,62 @@ func buildScript(r *common.RNG, sidx, ncases int, execEvery int) (*script, []*or
 				build: func(v string, _ []string) ([]string, []string) {
 					return []string{"Henv " + sqGo(key+"="+v), "T" + line}, []string{pre + v + post}
 				}})
+		case k == 10 && r.Chance(1, 2): // oracle: the predefined variable "$": $$, ${$}, ${$@R}, also after env '$=v', and what a child sees
+			if r.Chance(1, 2) {
+				v := common.Pick(r, []string{"x", "x.y", "$", "$$", "two words", "", "a$b", "(d)"})
+				h := "env " + sqGo("$="+v)
+				add(item{kind: 'H', text: h})
+				tr.set("$", v)
+			}
+			v, known := tr.current("$")
+			if !known {
+				v = "z.z"
+				add(item{kind: 'H', text: "env " + sqGo("$="+v)})
+				tr.set("$", v)
+			}
+			line := "args $$ ${$} ${$@R} a$$b"
+			ft["oracle-dollar-var"] = true
+			i := add(item{kind: 'T', text: line})
+			feats[i] = ft
+			oc := &oracleCase{name: "dollar-var", script: sidx, item: i, want: []string{v, v, regexp.QuoteMeta(v), "a" + v + "b"},
+				lines: append(scriptLinesOf(sc, "$"), "T"+line), childItem: -1}
+			if !tr.nul {
+				add(item{kind: 'P'})
+				oc.childItem = add(item{kind: 'X'})
+			}
+			ocs = append(ocs, oc)
+		case k == 10: // oracle: an unquoted # ends the line also when glued to a word, a quoted chunk or a reference
+			key := common.Pick(r, validNames)
+			v := genValue(r)
+			h := "env " + sqGo(key+"="+v)
+			add(item{kind: 'H', text: h})
+			tr.set(key, v)
+			if strings.Contains(h, "\x00") {
+				tr.nul = true
+			}
+			var src, want []string
+			for j, n := 0, 1+r.Intn(3); j < n; j++ {
+				switch r.Intn(4) {
+				case 0:
+					w := genPlain(r, 1)
+					src, want = append(src, w), append(want, w)
+				case 1:
+					w := genValue(r)
+					src, want = append(src, sqGo(w)), append(want, w)
+				case 2:
+					src, want = append(src, "$"+key), append(want, v)
+				default:
+					src, want = append(src, "${"+key+"}"), append(want, v)
+				}
+			}
+			tail := common.Pick(r, []string{"#", "#b c", "#'unbalanced", "#$" + key, "# x", "##", "#\tc"})
+			glue := common.Pick(r, []string{"", "", "", " ", "\t"})
+			line := "args " + strings.Join(src, " ") + glue + tail
+			ft["oracle-comment-ends-line"] = true
+			i := add(item{kind: 'T', text: line})
+			feats[i] = ft
+			ocs = append(ocs, &oracleCase{name: "comment-ends-line", script: sidx, item: i, want: want, key: key, value: v,
+				lines: []string{"H" + h, "T" + line}, childItem: -1})
 		case k == 9: // oracle: a word of several quoted / unquoted chunks and references
 			hist, vals, pieces := genMultiChunk(r)
 			for _, h := range hist {
@@ -2132,7 +2279,7 @@ func main() {
 		"test lines from a grammar of plain / single-quoted chunks, $NAME ${NAME} ${NAME@R}, special and malformed $-forms, comments, CR/tab separators, unterminated quotes, and a random special-character stream, "+
 		"after histories of env K=V lines (quoted, half-quoted, plain, through expansion, display form, odd keys) and ts.Setenv calls; every line is one evaluation (argv vs ts_parse), "+
 		"probes compare ts.Getenv with getenv, child observations compare the environment block of the helper with child_env; lines that do not reach args are re-run alone for the verdict; "+
-		"oracles without the model: quote-roundtrip, plain-split, multi-chunk (words of 3-7 quoted / unquoted chunks and references whose literals and values hold $NAME), expand-once, regex-exact, latest-wins, child-agrees, child-pwd; then %d strings each for quote_meta / utf8_ok / re_literal vs regexp, regexp/syntax, unicode/utf8 and os_expand vs os.Expand. "+
+		"Params.Setup also rewrites / removes / inserts / duplicates / moves predefined entries (six modes), with the values known by construction; oracles without the model: dollar-var ($$ ${$} ${$@R}, after env '$=v', and in the child), comment-ends-line (# glued to a word, a quoted chunk, a reference), quote-roundtrip, plain-split, multi-chunk (words of 3-7 quoted / unquoted chunks and references whose literals and values hold $NAME), expand-once, regex-exact, latest-wins, child-agrees, child-pwd; then %d strings each for quote_meta / utf8_ok / re_literal vs regexp, regexp/syntax, unicode/utf8 and os_expand vs os.Expand. "+
 		"after every test line the model is asked c02_holds_on (the boolean form of the statements) for the line and a name/value of the case; "+
 		"%d scripts with one cmp/cmpenv line each (second file a template with $K ${K} ${K@R} $$ and exotic forms, first file the expansion known by construction / the raw text / a perturbation / a reference itself, verdict by construction and against do_cmd_cmp) and %d scripts passing variable-held file names (blanks, quotes, $, #, tab, CR) to cp / exists / stdin, with a must-fail control; env K=$OTHER chains are followed by the latest-wins tracker. "+
 		"A line is non-trivial when it contains a quote, $, #, CR or tab; distinct = distinct line text", nScripts, nCases, nStd, nCmp, nArgs)
@@ -2193,7 +2340,7 @@ func (rn *runner) replay(v common.Violation) {
 			oc.want = []string{}
 		}
 		switch name {
-		case "quote-roundtrip", "expand-once", "regex-exact", "plain-split", "multi-chunk":
+		case "quote-roundtrip", "expand-once", "regex-exact", "plain-split", "multi-chunk", "dollar-var", "comment-ends-line":
 			inv := o.inv[last]
 			var argv []string
 			if len(inv) == 1 {
